@@ -917,6 +917,11 @@ class Process(StateMachine, persistence.Savable, metaclass=ProcessStateMachineMe
     def on_terminated(self) -> None:
         """Call when a terminal state is reached."""
         super().on_terminated()
+        if self._paused is not None:
+            # Release a stepping task that is blocked on the pause: a terminated process has nothing left to step
+            if not self._paused.done():
+                self._paused.set_result(True)
+            self._paused = None
         self.close()
 
     @super_check
